@@ -471,6 +471,23 @@ func specGen() *rapid.Generator[inputSpec] {
 	return rapid.Custom(func(t *rapid.T) inputSpec {
 		n := rapid.IntRange(0, 5).Draw(t, "n")
 		s := inputSpec{Spare: rapid.IntRange(0, 3).Draw(t, "spare"), Shape: rapid.SampledFrom(shapes).Draw(t, "shape"), Cut: rapid.IntRange(0, 5).Draw(t, "cut")}
+		if rapid.IntRange(0, 5).Draw(t, "long") == 0 {
+			// a long unsorted array of scalars with duplicates: size-dependent
+			// paths of the natives (sorting, searching, hashing, chunked copies)
+			m := rapid.SampledFrom([]int{32, 33, 40, 64, 65, 100}).Draw(t, "longn")
+			for i := 0; i < m; i++ {
+				switch k := (i*7 + m) % 11; {
+				case k < 6:
+					s.Elems = append(s.Elems, univ.V{X: (i * 37) % 23})
+				case k < 9:
+					s.Elems = append(s.Elems, univ.V{X: string(rune('a' + (i*5)%17))})
+				default:
+					s.Elems = append(s.Elems, univ.V{X: nil})
+				}
+			}
+			s.Cut = rapid.IntRange(0, m).Draw(t, "longcut")
+			n = 0
+		}
 		for i := 0; i < n; i++ {
 			switch rapid.IntRange(0, 4).Draw(t, "ekind") {
 			case 4:
@@ -614,7 +631,11 @@ func TestC05(t *testing.T) {
 		return
 	}
 	specs := specGen()
-	vars := rapid.OneOf(rapid.Just[any]([]any{3, 1, 2}), rapid.Just[any]([]any{[]any{1}, []any{2, 3}}), rapid.Just[any](map[string]any{"a": []any{1, 2}, "b": map[string]any{"c": 1}}), gen.Value(gen.Opt{MaxDepth: 2, MaxWidth: 3, SmallInts: true}))
+	longVar := make([]any, 45)
+	for i := range longVar {
+		longVar[i] = (i * 29) % 31
+	}
+	vars := rapid.OneOf(rapid.Just[any](longVar), rapid.Just[any]([]any{3, 1, 2}), rapid.Just[any]([]any{[]any{1}, []any{2, 3}}), rapid.Just[any](map[string]any{"a": []any{1, 2}, "b": map[string]any{"c": 1}}), gen.Value(gen.Opt{MaxDepth: 2, MaxWidth: 3, SmallInts: true}))
 
 	// one compiled query over a sequence of related inputs vs fresh compiles
 	rec.Rapid(t, "sequence", rec.Scale(20000, 800000), func(t *rapid.T) {
